@@ -26,13 +26,28 @@ def sym_time_text(path, tag, hd, md):
 
 def run_case(case, eng, res):
     tools = loader.load("schedule.tools")
+    if case.get("via") == "schedule":
+        from harness.C10 import Summary
+        loader.override(tools.__name__, "pretty_next_run", lambda *a, **k: Summary("next_run", list(a)))
+    try:
+        _run_case(case, eng, res, tools)
+    finally:
+        loader.clear_overrides()
+
+
+def _run_case(case, eng, res, tools):
 
     def body(path):
         timeenv.setup(path)
         s, h1, m1 = sym_time_text(path, "s", case["shd"], case["smd"])
         e, h2, m2 = sym_time_text(path, "e", case["ehd"], case["emd"])
         try:
-            r = tools.calc_duration(s, e)
+            if case.get("via") == "schedule":
+                parser_mod = loader.load("schedule.parser")
+                obj = parser_mod.SwitcherSchedule("1", bool(case.get("recurring")), set(), s, e)
+                r = obj.duration
+            else:
+                r = tools.calc_duration(s, e)
             return ("ok", r, s, e, h1, m1, h2, m2)
         except Exception as ex:  # noqa: BLE001
             return ("exc", ex, s, e, h1, m1, h2, m2)
@@ -59,13 +74,17 @@ def run_case(case, eng, res):
             m = path.refute(bterm(bad))
             if m is not None:
                 a = [C.ev_seq(m, s), C.ev_seq(m, e)]
-                res["violations"].append({"what": "C14 duration of %s..%s" % tuple(a), "case": case,
-                                          "replay": {"kind": "call", "func": "schedule.tools:calc_duration", "args": a, "oracle": "C14"}})
+                rp = {"kind": "call", "func": "schedule.tools:calc_duration", "args": a, "oracle": "C14"}
+                if case.get("via") == "schedule":
+                    rp = {"kind": "c14_schedule", "args": a, "recurring": bool(case.get("recurring")), "oracle": "C14"}
+                res["violations"].append({"what": "C14 duration of %s..%s" % tuple(a), "case": case, "replay": rp})
         else:
             eng.stats.checks += 1
             eng.stats.checks_discharged += 1
         mw = path.witness()
         a = [C.ev_seq(mw, s), C.ev_seq(mw, e)]
+        if case.get("via") == "schedule":
+            continue
         res["witnesses"].append({"replay": {"kind": "call", "func": "schedule.tools:calc_duration", "args": a, "oracle": "C14"},
                                  "expected": C.conc(mw, r) if tag == "ok" else {"exception": type(r).__name__}})
         if len(res["samples"]) < 1:
@@ -80,6 +99,8 @@ def main(tier):
     cases = [{"shd": a, "smd": b, "ehd": c, "emd": d} for a in (2, 1) for b in (2, 1) for c in (2, 1) for d in (2, 1)]
     if tier == "quick":
         cases = [c for c in cases if (c["smd"], c["emd"]) == (2, 2)]
+    # the duration a schedule object reports (recurring or not)
+    cases += [{"shd": 2, "smd": 2, "ehd": 2, "emd": 2, "via": "schedule", "recurring": rec} for rec in (False, True)]
     results = H.run_cases("harness.C14", "run_case", cases)
     nw = H.validate_call_witnesses(results)
     H.finish(PID, tier, "model_checking", results, t0,
